@@ -12,7 +12,7 @@ CHECKS = {
     "C18": dict(
         pkg="c18", race=False,
         technique="lock-step reference-model monitor + reset-twin relational monitor over seeded op sequences",
-        level_text="Moving percentile: every fifth Add is a sample exactly equal to the current estimate; the estimate never moves away from the sample it is shown. The moving variance is compared with a model composed of two public moving averages (squared deviation of each sample from the running mean of the samples before it). For the exponential average the warm-up mean is checked after Updates as well. MinimumMeasurement.Update with a positive result is modelled as one more sample. Reset overlapping Add (300 rounds per case; free-running, or both queued behind an identity Update that holds the instance lock and yields): afterwards the instance equals, bit for bit, a new instance with or without that sample. Every Add/Get/Reset/Update result of the real primitives is compared online with an independent reference fold "
+        level_text="The concurrent-reset scenario's Update-in-progress device (an identity Update yields while a Reset and an Add queue up behind it) runs for every measurement type, the minimum included. Moving percentile: every fifth Add is a sample exactly equal to the current estimate; the estimate never moves away from the sample it is shown. The moving variance is compared with a model composed of two public moving averages (squared deviation of each sample from the running mean of the samples before it). For the exponential average the warm-up mean is checked after Updates as well. MinimumMeasurement.Update with a positive result is modelled as one more sample. Reset overlapping Add (300 rounds per case; free-running, or both queued behind an identity Update that holds the instance lock and yields): afterwards the instance equals, bit for bit, a new instance with or without that sample. Every Add/Get/Reset/Update result of the real primitives is compared online with an independent reference fold "
                    "(minimum, latest, warm-up mean, hull, variance>=0), reset twins are compared bit-for-bit, the flag is checked against "
                    "observed value changes, and window folds against a reference and a permutation - over thousands (quick) to hundreds of "
                    "thousands (thorough) of seeded sequences. Exploration: it shows the property on the sequences run, not for all.", shards=(4, 16), timeout_s=(300, 1800),
@@ -29,7 +29,7 @@ CHECKS = {
     "C04": dict(
         pkg="c04", race=False, shard_env={"GO_CONCURRENCY_LIMIT_LOG10ROOT_PRE_COMPUTE": "4096", "GO_CONCURRENCY_LIMIT_SQRT_PRE_COMPUTE": "4096"}, shards=(4, 16), timeout_s=(300, 1800),
         technique="bounds-and-recover monitor after every sample over hostile seeded sample sequences",
-        level_text="Gradient2 with a maximum below its default minimum and the minimum left to default: refused by the constructor or, if an instance is handed out, held to the configured maximum. One Vegas / Gradient case in ten asks the constructor for its default maximum (0 / -1 => 1000). A quarter of the Vegas cases carry caller-supplied step / threshold functions (limit/2, limit-3, threshold 0 / -1, +2); one case in five uses a debug-enabled logger; one in twelve an out-of-range smoothing (constructor default applies). After every OnSample (run under recover) of AIMD/Vegas/Gradient/Gradient2, bare and wrapped by windowed/traced limits, the "
+        level_text="One traced wrapper in four is built without a logger (nil = no logging). Gradient2 with a maximum below its default minimum and the minimum left to default: refused by the constructor or, if an instance is handed out, held to the configured maximum. One Vegas / Gradient case in ten asks the constructor for its default maximum (0 / -1 => 1000). A quarter of the Vegas cases carry caller-supplied step / threshold functions (limit/2, limit-3, threshold 0 / -1, +2); one case in five uses a debug-enabled logger; one in twelve an out-of-range smoothing (constructor default applies). After every OnSample (run under recover) of AIMD/Vegas/Gradient/Gradient2, bare and wrapped by windowed/traced limits, the "
                    "reported estimate is checked against [max(1,min), max(max,initial)] (AIMD: max(initial, max in-flight seen + increment)); "
                    "int(NaN) shows up as MinInt64 and trips the same bound. Hostile inputs: rtt 0/1/baseline/up to 2^62, in-flight 0..2^31-1, "
                    "drop-only phases; one shard in four each is started with both pre-computed tables enlarged, only the sqrt table, only the log10 table; one case in twelve asks for the default minimum (0) together with a queue allowance that is 0 for small limits "
@@ -330,7 +330,7 @@ CHECKS = {
     "C17": dict(
         pkg="c17", race=True, shards=(8, 16), timeout_s=(900, 7200),
         technique="Go race detector (-race, halt_on_error=0, log to file) over API-level stress of every exported method; reports filtered to library frames and de-duplicated by access-site pair; runtime fatals (concurrent map access) caught from the child's output",
-        level_text="Constructors are hammered too: goroutines build queue limiters (all orderings), limits, strategies, default limiters and pools from ONE shared configuration value and ONE shared tag slice with spare capacity (scenario ctor.shared-config-and-tags). One stress scenario per type family (8 limits incl. wrappers, 4 strategies with their partitions and dynamic add/remove, default / "
+        level_text="The predicate strategy's bin accessors are asked for indices 0..4 while the third partition comes and goes (an index that is no longer valid is answered with the accessor's error). Constructors are hammered too: goroutines build queue limiters (all orderings), limits, strategies, default limiters and pools from ONE shared configuration value and ONE shared tag slice with spare capacity (scenario ctor.shared-config-and-tags). One stress scenario per type family (8 limits incl. wrappers, 4 strategies with their partitions and dynamic add/remove, default / "
                    "blocking / deadline / queue limiters and their listeners, pools, 7 measurement primitives, both metric registries with 200us polling, "
                    "independent Gradient / Gradient2 / Vegas instances side by side with limits on both sides of the pre-computed tables, strategies rebuilt "
                    "from partitions other goroutines are reading, and an integrated limiter+limit+registry): 4-16 goroutines call every exported method (accessors, String, SetLimit, NotifyOnChange, "
